@@ -630,3 +630,141 @@ Proof.
   specialize (Hho eq_refl). cbn [opt_pct_wf] in Hho.
   destruct (host_norm_fixed t Hho) as (_ & F1 & F2). cbv zeta in F1, F2. rewrite F1, F2. reflexivity.
 Qed.
+
+(* ================================================================ 6. the commutation theorem *)
+Lemma omap_lowercase_idem o : omap lowercase (omap lowercase o) = omap lowercase o.
+Proof. destruct o as [t|]; [|reflexivity]. cbn [omap]. rewrite lowercase_idem. reflexivity. Qed.
+
+Lemma is_some_omap {f : text -> text} o : is_some (omap f o) = is_some o.
+Proof. destruct o; reflexivity. Qed.
+
+Theorem commute c R B :
+  (c = false \/ scheme R = None) ->
+  uri_pct_wf R = true -> one_kind R = true -> no_pct_dot R = true ->
+  (is_host_set B = true -> absolutePath B = false) ->
+  kf_cancels R = false -> kf_dot_eaten R = false ->
+  components (normalize 63 (snd (add_base c (normalize 63 R) B)))
+  = components (normalize 63 (snd (add_base c R B))).
+Proof.
+  intros Hc Hwf Hone Hnpd HB Hkc Hke.
+  destruct (scheme B) as [sb|] eqn:Esb; [|rewrite !add_base_rel_base by exact Esb; reflexivity].
+  rewrite !(add_base_build c _ B sb Esb). cbv zeta.
+  destruct (normalized_fields R) as (Esc & Eui & Eht & E4 & E6 & Efu & Epo & Eps & Eab & Equ & Efr & Ehs).
+  cbv zeta in *.
+  pose proof (auth_norm_normalize R Hwf Hone) as Han.
+  destruct (pct_wf_parts R Hwf) as (Hui & _ & Hps & Hqu & Hfr).
+  unfold no_pct_dot in Hnpd.
+  set (R' := normalize 63 R) in *.
+  assert (keeps_scheme c (Some sb) R' = keeps_scheme c (Some sb) R) as Ek.
+  { unfold keeps_scheme. rewrite Esc. destruct Hc as [Hc|Hc]; [subst c|rewrite Hc; reflexivity].
+    cbn [andb negb]. rewrite !andb_true_r. apply is_some_omap. }
+  rewrite Ek, Ehs, Eab, Eps, Equ, Efr.
+  unfold norm_segs.
+  destruct (keeps_scheme c (Some sb) R) eqn:Hk.
+  { (* the reference keeps its scheme *)
+    assert (is_some (scheme R) = true) as Hs by (unfold keeps_scheme in Hk; apply andb_prop in Hk; apply Hk).
+    assert (relative_ref R = false) as Hrel by (unfold relative_ref; rewrite Hs; reflexivity).
+    rewrite Hrel.
+    apply comps_build_eq; try assumption.
+    - rewrite Esc. apply omap_lowercase_idem.
+    - rewrite Esc, is_some_omap. exact Hs.
+    - apply path_keeps; assumption.
+    - apply omap_fix_idem; exact Hqu.
+    - apply omap_fix_idem; exact Hfr. }
+  destruct (is_host_set R) eqn:Hh.
+  { (* the reference has an authority *)
+    assert (relative_ref R = false) as Hrel by (unfold relative_ref; rewrite Hh, andb_false_r; reflexivity).
+    rewrite Hrel.
+    assert (is_host_set R' = is_host_set R) as Ehs' by (rewrite Ehs, Hh; reflexivity).
+    apply comps_build_eq; try assumption; try reflexivity.
+    - apply path_relhost; assumption.
+    - apply omap_fix_idem; exact Hqu.
+    - apply omap_fix_idem; exact Hfr. }
+  destruct (absolutePath R) eqn:Ha.
+  { (* absolute-path reference *)
+    rewrite !andb_false_r.
+    assert (relative_ref R = false) as Hrel by (unfold relative_ref; rewrite Ha, andb_false_r; reflexivity).
+    rewrite Hrel.
+    apply comps_build_eq; try reflexivity.
+    - apply path_abs; assumption.
+    - apply omap_fix_idem; exact Hqu.
+    - apply omap_fix_idem; exact Hfr. }
+  (* relative-path reference *)
+  assert (scheme R = None) as Hsn.
+  { destruct Hc as [Hc|Hc]; [subst c|exact Hc]. unfold keeps_scheme in Hk. cbn [andb negb] in Hk.
+    rewrite andb_true_r in Hk. destruct (scheme R); [discriminate Hk|reflexivity]. }
+  assert (relative_ref R = true) as Hrel by (unfold relative_ref; rewrite Hsn, Ha, Hh; reflexivity).
+  rewrite Hrel. rewrite !andb_true_r.
+  destruct (pathSegs R) as [|r1 rs] eqn:Ep.
+  { (* empty path: the base's path *)
+    cbn [is_nil]. change (norm_segs_of true false false []) with (@nil text). cbn [is_nil].
+    apply comps_build_eq; try reflexivity.
+    - destruct (query R) as [q|]; [|reflexivity]. cbn [omap]. cbn [opt_pct_wf] in Hqu.
+      rewrite fix_pct_idem by exact Hqu. reflexivity.
+    - apply omap_fix_idem; exact Hfr. }
+  (* merge *)
+  rewrite <- Ep in *. assert (pathSegs R <> []) as Hne by (rewrite Ep; discriminate).
+  assert (norm_segs_of true false false (pathSegs R) <> []) as HN.
+  { unfold kf_cancels in Hkc. rewrite Hrel in Hkc. fold R' in Hkc. rewrite Eps in Hkc.
+    unfold norm_segs in Hkc. rewrite Hrel, Hh, Ha in Hkc.
+    intros E. rewrite E in Hkc. rewrite Ep in Hkc. discriminate Hkc. }
+  assert (is_nil (pathSegs R) = false) as E1 by (rewrite Ep; reflexivity).
+  assert (is_nil (norm_segs_of true false false (pathSegs R)) = false) as E2
+    by (destruct (norm_segs_of true false false (pathSegs R)); [congruence|reflexivity]).
+  rewrite E1, E2.
+  apply comps_build_eq; try reflexivity.
+  - apply path_merge; try assumption.
+    unfold kf_dot_eaten in Hke. rewrite Hrel in Hke. exact Hke.
+  - apply omap_fix_idem; exact Hqu.
+  - apply omap_fix_idem; exact Hfr.
+Qed.
+
+(* a reference with a scheme, an authority or an absolute path: no carve-out, nothing asked of the base *)
+Theorem commute_not_relative c R B :
+  (c = false \/ scheme R = None) ->
+  uri_pct_wf R = true -> one_kind R = true -> no_pct_dot R = true ->
+  relative_ref R = false ->
+  components (normalize 63 (snd (add_base c (normalize 63 R) B)))
+  = components (normalize 63 (snd (add_base c R B))).
+Proof.
+  intros Hc Hwf Hone Hnpd Hrel.
+  destruct (scheme B) as [sb|] eqn:Esb; [|rewrite !add_base_rel_base by exact Esb; reflexivity].
+  rewrite !(add_base_build c _ B sb Esb). cbv zeta.
+  destruct (normalized_fields R) as (Esc & Eui & Eht & E4 & E6 & Efu & Epo & Eps & Eab & Equ & Efr & Ehs).
+  cbv zeta in *.
+  pose proof (auth_norm_normalize R Hwf Hone) as Han.
+  destruct (pct_wf_parts R Hwf) as (Hui & _ & Hps & Hqu & Hfr).
+  unfold no_pct_dot in Hnpd.
+  set (R' := normalize 63 R) in *.
+  assert (keeps_scheme c (Some sb) R' = keeps_scheme c (Some sb) R) as Ek.
+  { unfold keeps_scheme. rewrite Esc. destruct Hc as [Hc|Hc]; [subst c|rewrite Hc; reflexivity].
+    cbn [andb negb]. rewrite !andb_true_r. apply is_some_omap. }
+  rewrite Ek, Ehs, Eab, Eps, Equ, Efr.
+  unfold norm_segs. rewrite Hrel.
+  destruct (keeps_scheme c (Some sb) R) eqn:Hk.
+  { assert (is_some (scheme R) = true) as Hs by (unfold keeps_scheme in Hk; apply andb_prop in Hk; apply Hk).
+    apply comps_build_eq; try assumption.
+    - rewrite Esc. apply omap_lowercase_idem.
+    - rewrite Esc, is_some_omap. exact Hs.
+    - apply path_keeps; assumption.
+    - apply omap_fix_idem; exact Hqu.
+    - apply omap_fix_idem; exact Hfr. }
+  destruct (is_host_set R) eqn:Hh.
+  { assert (is_host_set R' = is_host_set R) as Ehs' by (rewrite Ehs, Hh; reflexivity).
+    apply comps_build_eq; try assumption; try reflexivity.
+    - apply path_relhost; assumption.
+    - apply omap_fix_idem; exact Hqu.
+    - apply omap_fix_idem; exact Hfr. }
+  destruct (absolutePath R) eqn:Ha.
+  { rewrite !andb_false_r.
+    apply comps_build_eq; try reflexivity.
+    - apply path_abs; assumption.
+    - apply omap_fix_idem; exact Hqu.
+    - apply omap_fix_idem; exact Hfr. }
+  (* no scheme kept, no host, rootless: a relative-path reference after all *)
+  exfalso.
+  assert (scheme R = None) as Hsn.
+  { destruct Hc as [Hc|Hc]; [subst c|exact Hc]. unfold keeps_scheme in Hk. cbn [andb negb] in Hk.
+    rewrite andb_true_r in Hk. destruct (scheme R); [discriminate Hk|reflexivity]. }
+  unfold relative_ref in Hrel. rewrite Hsn, Ha, Hh in Hrel. discriminate Hrel.
+Qed.
